@@ -49,6 +49,7 @@ package dastard
 //@   ensures (result == nil ==> old(fs[oldname]) != 0 && old(fs[newname]) == 0 && fs == upd(old(fs), newname, old(fs[oldname]))) && (result != nil ==> fs == old(fs))
 //@ extern func os.IsNotExist
 //@   pure
+//@   ensures result == isnotexist(err)
 //@ extern func log.Println
 //@   pure
 //@ extern func log.Printf
